@@ -2,6 +2,7 @@ package main
 
 import (
 	"bytes"
+	"context"
 	"encoding/json"
 	"os"
 	"path/filepath"
@@ -29,12 +30,12 @@ type addOp struct {
 }
 
 type relC03 struct {
-	Kind   string  `json:"kind"`
-	Root   string  `json:"root"`
-	Ops    []addOp `json:"ops"`
-	Fmt    Fmt4    `json:"fmt"`
-	Exts   []string `json:"exts,omitempty"`
-	Sp     Spelling `json:"spelling"`
+	Kind string   `json:"kind"`
+	Root string   `json:"root"`
+	Ops  []addOp  `json:"ops"`
+	Fmt  Fmt4     `json:"fmt"`
+	Exts []string `json:"exts,omitempty"`
+	Sp   Spelling `json:"spelling"`
 }
 
 // build runs the Add program on the real API and on a mirror Tree.
@@ -146,6 +147,17 @@ func runRelC03(m *Model, c relC03) []Diff {
 		return strings.Join(out, ",")
 	}
 	diffs = append(diffs, cmp("mkdir: From-Root vs From-Markdown", rel(j1, snapshot(j1))+" e="+classify(m1), rel(j2, snapshot(j2))+" e="+classify(m2))...)
+	// the same with the massive option (accepted by both API families): same verdict about the names
+	j3, j4 := newJail(), newJail()
+	defer os.RemoveAll(j3)
+	defer os.RemoveAll(j4)
+	mctx := gtree.WithMassive(context.Background())
+	m3 := gtree.MkdirFromRoot(root, gtree.WithTargetDir(filepath.Join(j3, "t")), gtree.WithFileExtensions(c.Exts), mctx)
+	m4 := gtree.MkdirFromMarkdown(bytes.NewReader(doc), gtree.WithTargetDir(filepath.Join(j4, "t")), gtree.WithFileExtensions(c.Exts), mctx)
+	diffs = append(diffs, cmp("mkdir+massive: From-Root vs From-Markdown (error class)", errClass(classify(m3)), errClass(classify(m4)))...)
+	if m3 == nil && m4 == nil {
+		diffs = append(diffs, cmp("mkdir+massive: From-Root vs From-Markdown", rel(j3, snapshot(j3)), rel(j4, snapshot(j4)))...)
+	}
 	v1 := gtree.VerifyFromRoot(root, gtree.WithTargetDir(t1), gtree.WithStrictVerify())
 	v2 := gtree.VerifyFromMarkdown(bytes.NewReader(doc), gtree.WithTargetDir(t1), gtree.WithStrictVerify())
 	diffs = append(diffs, cmp("verify: From-Root vs From-Markdown", classifyRel(v1, j1), classifyRel(v2, j1))...)
@@ -202,7 +214,7 @@ func runC03(ctx *Ctx) *Report {
 	if ctx.Thorough {
 		nprog = 30000
 	}
-	names := []string{"a", "b", "c", "x.go", "- d", "e f"}
+	names := []string{"a", "b", "c", "x.go", "- d", "e f", "a", "b", "..", "x/y"}
 	spellings := coveringSpellings()
 	for k := 0; k < nprog; k++ {
 		c := relC03{Kind: "c03-rel", Root: "root", Fmt: formats[k%len(formats)], Sp: spellings[k%len(spellings)]}
@@ -261,12 +273,16 @@ func sentinelChecks() []sentinelResult {
 		{"OutputProgrammably", func(n *gtree.Node, w *bytes.Buffer) error { return gtree.OutputProgrammably(w, n) }},
 		{"OutputFromRoot/json", func(n *gtree.Node, w *bytes.Buffer) error { return gtree.OutputFromRoot(w, n, gtree.WithEncodeJSON()) }},
 		{"MkdirFromRoot", func(n *gtree.Node, w *bytes.Buffer) error { return gtree.MkdirFromRoot(n, gtree.WithTargetDir(jail)) }},
-		{"MkdirProgrammably", func(n *gtree.Node, w *bytes.Buffer) error { return gtree.MkdirProgrammably(n, gtree.WithTargetDir(jail)) }},
+		{"MkdirProgrammably", func(n *gtree.Node, w *bytes.Buffer) error {
+			return gtree.MkdirProgrammably(n, gtree.WithTargetDir(jail))
+		}},
 		{"MkdirFromRoot/dry", func(n *gtree.Node, w *bytes.Buffer) error {
 			return gtree.MkdirFromRoot(n, gtree.WithTargetDir(jail), gtree.WithDryRun())
 		}},
 		{"VerifyFromRoot", func(n *gtree.Node, w *bytes.Buffer) error { return gtree.VerifyFromRoot(n, gtree.WithTargetDir(jail)) }},
-		{"VerifyProgrammably", func(n *gtree.Node, w *bytes.Buffer) error { return gtree.VerifyProgrammably(n, gtree.WithTargetDir(jail)) }},
+		{"VerifyProgrammably", func(n *gtree.Node, w *bytes.Buffer) error {
+			return gtree.VerifyProgrammably(n, gtree.WithTargetDir(jail))
+		}},
 		{"WalkFromRoot", func(n *gtree.Node, w *bytes.Buffer) error { return gtree.WalkFromRoot(n, cb) }},
 		{"WalkProgrammably", func(n *gtree.Node, w *bytes.Buffer) error { return gtree.WalkProgrammably(n, cb) }},
 		{"WalkIterFromRoot", func(n *gtree.Node, w *bytes.Buffer) error {
